@@ -37,6 +37,11 @@ pub struct C11Case {
     /// are then QoS 1 publishes, which a resumed session re-sends)
     #[serde(default)]
     pub resume_after: bool,
+    /// the first request on handle 0 fails local validation (publish without a topic); handle 0
+    /// then stays quiet while the other clones take the counter once round, and speaks up again at
+    /// the end
+    #[serde(default)]
+    pub invalid_first: bool,
 }
 
 pub struct C11;
@@ -67,7 +72,7 @@ impl Property for C11 {
                 0..40,
             ),
         )
-            .prop_map(|(total, handles, salt, keep)| C11Case { total, handles, salt, keep, threads: false, history: None, resume_after: false })
+            .prop_map(|(total, handles, salt, keep)| C11Case { total, handles, salt, keep, threads: false, history: None, resume_after: false, invalid_first: false })
             .boxed();
         let long = (s, prop::bool::weighted(0.25), any::<bool>())
             .prop_map(|(mut c, t, r)| {
@@ -100,7 +105,7 @@ impl Property for C11 {
                 // several clones from the outset
                 events.insert(0, Ev::CloneHandle);
                 events.insert(0, Ev::CloneHandle);
-                C11Case { total: 0, handles: 0, salt: 0, keep: vec![], threads: false, resume_after: false, history: Some(Scenario { receive_max, max_packet_size, id_offset, prologue, events }) }
+                C11Case { total: 0, handles: 0, salt: 0, keep: vec![], threads: false, resume_after: false, invalid_first: false, history: Some(Scenario { receive_max, max_packet_size, id_offset, prologue, events }) }
             });
         prop_oneof![1 => long, 400 => hist].boxed()
     }
@@ -124,8 +129,14 @@ impl Property for C11 {
                     threads: false,
                     history: None,
                     resume_after: true,
+                    invalid_first: false,
                 });
             }
+        }
+        if worker == 1 % _workers.max(1) {
+            // handle 0 fails validation first (identifier 1 taken from the counter), handle 1 makes
+            // 65 535 allocations; the one that comes round to identifier 1 stays outstanding
+            v.push(C11Case { total: 65_538, handles: 2, salt: 3, keep: vec![(65_534, 60_000), (65_535, 60_000)], threads: false, history: None, resume_after: false, invalid_first: true });
         }
         Box::new(v.into_iter())
     }
@@ -196,6 +207,15 @@ impl Property for C11 {
             }
             w.quiesce(false);
         };
+        if case.invalid_first {
+            w.tick();
+            if let Some(op) = w.start_op(0, OpSpec::Publish(PublishSpec { qos: Some(1), topic: None, ..Default::default() })) {
+                w.quiesce(false);
+                if !matches!(w.ops[op].res, Some(OpRes::Err(_))) {
+                    return Outcome::fail("HARNESS/invalid-request-accepted", format!("{:?}", w.ops[op].res));
+                }
+            }
+        }
         for i in 0..case.total {
             // releases due now
             if let Some(pids) = release_at.remove(&i) {
@@ -220,7 +240,8 @@ impl Property for C11 {
                 _ => OpSpec::Unsubscribe(UnsubscribeSpec { filters: vec!["f".into()], user_props: vec![] }),
             };
             w.tick();
-            let h = (i as usize) % (case.handles.max(1) as usize);
+            let nh = case.handles.max(1) as usize;
+            let h = if case.invalid_first && nh > 1 { 1 + (i as usize) % (nh - 1) } else { (i as usize) % nh };
             let op = w.start_op(h, spec).unwrap();
             w.quiesce(false);
             if let Some((who, m)) = w.panics.first() {
@@ -298,6 +319,28 @@ impl Property for C11 {
                 break;
             }
         }
+        if case.invalid_first && o.fail.is_none() && o.excluded.is_empty() {
+            w.tick();
+            if w.start_op(0, OpSpec::Publish(PublishSpec { qos: Some(1), topic: Some("t".into()), ..Default::default() })).is_some() {
+                w.quiesce(false);
+                w.sync_wire();
+                let pid = w.pkts[seen_pkts..].iter().find_map(|p| match &p.decoded {
+                    Ok(rc::Packet::Publish(x)) => x.pid,
+                    _ => None,
+                });
+                seen_pkts = w.pkts.len();
+                if let Some(pid) = pid {
+                    if pid == 0 || outstanding.contains_key(&pid) {
+                        o.fail = Some(Failure {
+                            sig: if pid == 0 { "C11/packet-identifier-zero".into() } else { "C11/identifier-reused-while-outstanding".into() },
+                            msg: format!("handle 0 (whose first request failed validation {} allocations ago) published with packet identifier {pid}, still in use by an outstanding operation", case.total),
+                        });
+                    }
+                }
+            }
+            o.class("handle-quiet-for-a-lap-after-a-failed-validation");
+        }
+        let _ = seen_pkts;
         // the session, with what is still outstanding, is resumed on a new connection: the
         // identifiers allocated there must stay clear of the exchanges that were resumed
         if case.resume_after && o.fail.is_none() && o.excluded.is_empty() && !outstanding.is_empty() {
